@@ -24,6 +24,7 @@ from ..selftest import Twin
 from ._engine import CL, CL_REL, RUNNER, param
 
 EXPLANATION = __doc__.split("\n\n", 1)[1]
+TECHNIQUE = 'static analysis: ownership of runner state, record-before-commands dominance, interface-forwarding inventory, reducer purity/effect lint, now_seconds taint'
 TRUSTED = ["CPython ast", "dataclass/pydantic copy semantics"]
 PLUG = "workflows.runtime.types.plugin"
 DEC = "workflows.runtime.runtime_decorators"
